@@ -127,6 +127,7 @@ pub struct ChunkWriter {
     pub flushes: usize,
     pub fail_flush: bool,
     pub writes_after_flush: usize,
+    pub vectored_calls: usize,
 }
 
 impl ChunkWriter {
@@ -139,6 +140,7 @@ impl ChunkWriter {
             flushes: 0,
             fail_flush,
             writes_after_flush: 0,
+            vectored_calls: 0,
         }
     }
 
@@ -177,6 +179,12 @@ impl io::Write for ChunkWriter {
             Err(true) => Err(io::Error::new(io::ErrorKind::Interrupted, "interrupted")),
             Err(false) => Err(io::Error::new(io::ErrorKind::Other, "injected failure")),
         }
+    }
+    /// gathered write that takes bytes from several buffers in one call (up to the schedule's limit for this call)
+    fn write_vectored(&mut self, bufs: &[io::IoSlice<'_>]) -> io::Result<usize> {
+        let joined: Vec<u8> = bufs.iter().flat_map(|b| b.iter().copied()).collect();
+        self.vectored_calls += 1;
+        io::Write::write(self, &joined)
     }
     fn flush(&mut self) -> io::Result<()> {
         self.flushes += 1;
